@@ -19,10 +19,15 @@ pub enum Acc {
     CfmHeader,
 }
 
-#[cfg(feature = "full")]
+/// The millisecond accessors that exist in this build configuration (the model conversion needs
+/// nexrad-decode's `nexrad-model` feature, the volume header decoder nexrad-data's serde + bincode).
+#[cfg(all(feature = "f-conv", feature = "f-serde"))]
 const MS_ACC: [Acc; 4] = [Acc::MsgHeader, Acc::T31Header, Acc::Radial, Acc::VolHeader];
-/// build-configuration variants: the model conversion and the volume header decoder do not exist
-#[cfg(not(feature = "full"))]
+#[cfg(all(feature = "f-conv", not(feature = "f-serde")))]
+const MS_ACC: [Acc; 3] = [Acc::MsgHeader, Acc::T31Header, Acc::Radial];
+#[cfg(all(not(feature = "f-conv"), feature = "f-serde"))]
+const MS_ACC: [Acc; 3] = [Acc::MsgHeader, Acc::T31Header, Acc::VolHeader];
+#[cfg(all(not(feature = "f-conv"), not(feature = "f-serde")))]
 const MS_ACC: [Acc; 2] = [Acc::MsgHeader, Acc::T31Header];
 const MIN_ACC: [Acc; 3] = [Acc::RdaBypass, Acc::RdaClutter, Acc::CfmHeader];
 
@@ -80,13 +85,13 @@ pub fn eval_decode(a: Acc, d: u32, t: u32) -> Caught<Option<i64>> {
             let m = dm::digital_radar_data::decode_digital_radar_data(&mut std::io::Cursor::new(b)).expect("decodes");
             m.header.date_time().map(|x| x.timestamp_millis())
         }
-        #[cfg(feature = "full")]
+        #[cfg(feature = "f-conv")]
         Acc::Radial => {
             let b = t31_body(&T31Header::basic(1, 1, d as u16, t), &[], &Layout::default()).0;
             let m = dm::digital_radar_data::decode_digital_radar_data(&mut std::io::Cursor::new(b)).expect("decodes");
             m.radial().ok().map(|r| r.collection_timestamp())
         }
-        #[cfg(feature = "full")]
+        #[cfg(feature = "f-serde")]
         Acc::VolHeader => {
             let mut vh = VolHeader::basic();
             vh.date = d;
@@ -94,8 +99,10 @@ pub fn eval_decode(a: Acc, d: u32, t: u32) -> Caught<Option<i64>> {
             let h = nexrad_data::volume::Header::deserialize(&mut vh.encode().as_slice()).expect("decodes");
             h.date_time().map(|x| x.timestamp_millis())
         }
-        #[cfg(not(feature = "full"))]
-        Acc::Radial | Acc::VolHeader => machinery("accessor does not exist in this build configuration"),
+        #[cfg(not(feature = "f-conv"))]
+        Acc::Radial => machinery("accessor does not exist in this build configuration"),
+        #[cfg(not(feature = "f-serde"))]
+        Acc::VolHeader => machinery("accessor does not exist in this build configuration"),
         Acc::RdaBypass | Acc::RdaClutter => {
             let mut hw = rda_in_domain();
             let base = if a == Acc::RdaBypass { 18 } else { 20 };
@@ -129,13 +136,13 @@ fn eval_fast(c: &mut Carriers, a: Acc, d: u16, t: u32) -> Option<i64> {
             c.t31.header.time = t;
             c.t31.header.date_time().map(|x| x.timestamp_millis())
         }
-        #[cfg(feature = "full")]
+        #[cfg(feature = "f-conv")]
         Acc::Radial => {
             c.t31.header.date = d;
             c.t31.header.time = t;
             c.t31.radial().ok().map(|r| r.collection_timestamp())
         }
-        #[cfg(feature = "full")]
+        #[cfg(feature = "f-serde")]
         Acc::VolHeader => {
             let mut vh = VolHeader::basic();
             vh.date = d as u32;
@@ -143,8 +150,10 @@ fn eval_fast(c: &mut Carriers, a: Acc, d: u16, t: u32) -> Option<i64> {
             let h = nexrad_data::volume::Header::deserialize(&mut vh.encode().as_slice()).ok()?;
             h.date_time().map(|x| x.timestamp_millis())
         }
-        #[cfg(not(feature = "full"))]
-        Acc::Radial | Acc::VolHeader => machinery("accessor does not exist in this build configuration"),
+        #[cfg(not(feature = "f-conv"))]
+        Acc::Radial => machinery("accessor does not exist in this build configuration"),
+        #[cfg(not(feature = "f-serde"))]
+        Acc::VolHeader => machinery("accessor does not exist in this build configuration"),
         Acc::RdaBypass => {
             c.rda.bypass_map_generation_date = d;
             c.rda.bypass_map_generation_time = t as u16;
@@ -284,9 +293,9 @@ pub fn run(ctx: &'static Ctx) -> (&'static str, Value, Vec<&'static str>) {
     }
     for d in [65_536u32, 65_537, 0x0001_0001, 0x7FFF_FFFF, 0xFFFF_FFFF] {
         for t in [0u32, 86_399_999, 0xFFFF_FFFF] {
-            #[cfg(feature = "full")]
+            #[cfg(feature = "f-serde")]
             judge(ctx, Acc::VolHeader, d, t, eval_decode(Acc::VolHeader, d, t), &mut s3);
-            #[cfg(not(feature = "full"))]
+            #[cfg(not(feature = "f-serde"))]
             let _ = (d, t);
         }
     }
@@ -339,7 +348,7 @@ pub fn run(ctx: &'static Ctx) -> (&'static str, Value, Vec<&'static str>) {
                 // the data crate's accessor re-decodes 24 bytes each time: every 5th ms in thorough
                 let vstep = ms_step * 5;
                 let mut t = lo + (d % vstep);
-                while cfg!(feature = "full") && t < lo + 100_000 {
+                while cfg!(feature = "f-serde") && t < lo + 100_000 {
                     let g = guarded(|| eval_fast(&mut c, Acc::VolHeader, d as u16, t));
                     if g != Caught::Ret(Some(expected(Acc::VolHeader, d, t))) {
                         judge(ctx, Acc::VolHeader, d, t, eval_decode(Acc::VolHeader, d, t), &mut st);
